@@ -1117,13 +1117,6 @@ def regex_phase(ctx: Ctx, n_cases: int) -> None:
 # generators (model printE/readE, crep, rules of Model/Print.lean)
 # ------------------------------------------------------------------------------------------------
 
-def finding_listed(signature: str) -> bool:
-    """is the signature entered in known_findings.json (any status)?  The input class of a finding reported to the
-    lead is generated from the moment it is listed (then reported through run.report: KNOWN-FINDING while open)"""
-    from harness.common import load_known
-    return any(k.get("property") == PID and k.get("signature") == signature for k in load_known())
-
-
 def multi_entry_group_on_dotted_base(s: list) -> bool:
     """the input class of C15/selector-parens-dropped: a `{…}` group with >= 2 entries whose base is not a plain
     non-terminal (its parentheses are not printed, and the entries-first loop of SelectiveSearch._find makes the
@@ -1138,8 +1131,9 @@ def multi_entry_group_on_dotted_base(s: list) -> bool:
 
 
 SEL_NTS = ["<a>", "<b>", "<c>", "<start>"]
-SEL_GRAMMAR = "<start> ::= <a> <b> <a>\n<a> ::= <c>+ | 'q'\n<b> ::= 'y' | 'z' <c>\n<c> ::= '1' | '2'\n"
-SEL_WORDS = ["1y1", "qyq", "2z12", "11y2", "qz2q", "12z1q", "22z21"]
+# recursive, so that dotted bases find several trees and the entries of a {…} group several trees below each
+SEL_GRAMMAR = "<start> ::= <a> <a>\n<a> ::= <c> <c>?\n<c> ::= <b> <a>? | <b> <b>\n<b> ::= 'p' | 'q' | 'r'\n"
+SEL_WORDS = ["pq", "pqrp", "ppqq", "prqpq", "pqq", "qprrq"]
 
 
 def gen_slice(rng) -> list:
@@ -1165,8 +1159,8 @@ def gen_selection(rng, bad: bool) -> list:
 
 
 def gen_sel(rng, depth: int, shape: str) -> list:
-    """shape: "flat" (what a paren-free text denotes), "paren" (needs parentheses in the source), "bad"
-    (may leave the printable class: a group on a group, direct entries, empty groups)"""
+    """shape: "flat" (what a paren-free text denotes), "paren" (groups on dotted / grouped bases, dotted attributes:
+    needs parentheses in the source), "bad" (may leave the printable class: direct entries, empty groups)"""
     if shape == "flat":
         s = gen_selection(rng, False)
         for _ in range(rng.choice([0, 0, 1, 1, 2, 3])):
@@ -1177,11 +1171,7 @@ def gen_sel(rng, depth: int, shape: str) -> list:
     r = rng.random()
     if r < 0.6:
         return [rng.choice(["attr", "attr", "desc"]), gen_sel(rng, depth - 1, shape), gen_sel(rng, depth - 1, shape)]
-    base = gen_sel(rng, depth - 1, shape)
-    if shape != "bad":
-        # keep it printable as a selector: a group only on a base whose last selection is bare
-        while not last_bare(base):
-            base = gen_sel(rng, depth - 1, shape)
+    base = gen_sel(rng, depth - 1, shape)       # any base: it is printed in parentheses unless it is a plain non-terminal
     if r < 0.8:
         return ["item", base, [gen_slice(rng) for _ in range(rng.randint(1, 2))]]
     return ["sel", base, [[rng.choice(SEL_NTS), False, gen_slice(rng) if rng.random() < 0.5 else None] for _ in range(rng.randint(1, 2))]]
@@ -1358,19 +1348,14 @@ def selector_phase(ctx: Ctx, n_cases: int) -> None:
         if r[0] != "sel":
             raise MachineryError(f"selector source {src!r} is not read as a selector: {r[:2]}")
         tops.append((r[1], "source"))
-    parens_on = finding_listed("C15/selector-parens-dropped")
-    run.count("finding_class:C15/selector-parens-dropped:" + ("on" if parens_on else "off"))
-    if parens_on:
-        tops.append((["star", ["sel", ["attr", ["attr", ["rule", "<start>"], ["rule", "<a>"]], ["rule", "<c>"]],
-                               [["<c>", False, None], ["<a>", False, None]]]], "paren"))
-        tops.append((["plain", ["sel", ["desc", ["desc", ["rule", "<a>"], ["rule", "<c>"]], ["rule", "<c>"]],
-                                [["<c>", False, None], ["<c>", False, None]]]], "paren"))
+    # the input class of F66 (fixed by 9a10ad80): a multi-entry {…} group on a parenthesised dotted base
+    tops.append((["star", ["sel", ["attr", ["attr", ["rule", "<start>"], ["rule", "<a>"]], ["rule", "<c>"]],
+                           [["<c>", False, None], ["<a>", False, None]]]], "paren"))
+    tops.append((["plain", ["sel", ["desc", ["desc", ["rule", "<a>"], ["rule", "<c>"]], ["rule", "<c>"]],
+                            [["<c>", False, None], ["<c>", False, None]]]], "paren"))
     for i in range(n_cases):
         shape = "flat" if i % 5 < 2 else "paren" if i % 5 < 4 else "bad"
-        t = gen_top(rng, shape)
-        while not parens_on and multi_entry_group_on_dotted_base(t[1]):
-            t = gen_top(rng, shape)
-        tops.append((t, shape))
+        tops.append((gen_top(rng, shape), shape))
     ans = driver_ask("drv_print", [{"op": "selprint", "top": t} for t, _ in tops])
     trees = None
     printed: list[list] = []
@@ -1565,7 +1550,7 @@ def canon_rules(rules: Optional[list], pats: list) -> Any:
 
 
 PAYLOAD_SELECTORS = ["<cnt>", "<cnt>.<d>", "<hdr>..<d>", "<hdr>.<cnt>.<d>", "<cnt>[0]", "<hdr>.<cnt>[0:1]", "(<hdr>.<cnt>).<d>", "<hdr>.(<cnt>.<d>)",
-                     "<hdr>{*<d>}", "<hdr>..<d>[0]"]
+                     "<hdr>{*<d>}", "<hdr>..<d>[0]", "(<hdr>..<d>)[0]", "(<hdr>.<cnt>){*<d>}"]
 PAYLOAD_EXPRS = ["int(%s)", "int(str(%s)) + 1", "max(1, int(%s))", "int(%s) * 2 - 1", "len(str(%s))", "int(%s) if True else 3", "int(str(%s)[0:1])"]
 GEN_EXPRS = ["dup(%s)", "str(%s) * 2", "dup(%s) + dup(%s)", "'x' + str(%s)", "dup(str(%s)[0:1])", "dup(%s, %s)", "'k'"]
 
@@ -2118,10 +2103,7 @@ def constraint_phase(ctx: Ctx, n_cases: int) -> None:
              ("forall <x> in <a>: str(<x>) == '1'", ["legacy-quantifier"]),
              ("not (int(<b>.<c>) >= 2)", ["not-paren"]),
              ("int(<a>) == 1 or str(<b>) == 'y'", ["may-raise", "bool"])]
-    star_on = finding_listed("C15/star-selection-subscripted")
-    run.count("finding_class:C15/star-selection-subscripted:" + ("on" if star_on else "off"))
-    if star_on:
-        texts += [(a, ["star-subscripted"]) for a in ATOMS_STAR_SUBSCRIPTED]
+    texts += [(a, ["star-subscripted"]) for a in ATOMS_STAR_SUBSCRIPTED]       # open finding F67
     for _ in range(n_cases):
         texts.append(gen_constraint(rng, 2))
     seen = set()
@@ -2388,9 +2370,9 @@ def main(tier: str) -> int:
         run.coverage["phase_s"] = {"nodes": round(t0 - run.t0, 1)}
         for name, fn in (("tokens", lambda: token_phase(ctx, 500 if quick else 5000)),
                          ("literals", lambda: literal_phase(ctx, 400 if quick else 6000)),
-                         ("regexes", lambda: regex_phase(ctx, 500 if quick else 4000)),
-                         ("selectors", lambda: selector_phase(ctx, 300 if quick else 2500)),
-                         ("payloads", lambda: payload_phase(ctx, 50 if quick else 400)),
+                         ("regexes", lambda: regex_phase(ctx, 500 if quick else 3000)),
+                         ("selectors", lambda: selector_phase(ctx, 300 if quick else 1500)),
+                         ("payloads", lambda: payload_phase(ctx, 50 if quick else 250)),
                          ("specs", lambda: spec_phase(ctx, 150 if quick else 1500, tmpdir)),
                          ("words", lambda: word_phase(ctx, 40 if quick else 400)),
                          ("constraints", lambda: constraint_phase(ctx, 120 if quick else 1500))):
@@ -2426,7 +2408,7 @@ def main(tier: str) -> int:
              "texts) and the `re` oracle instances.  (selectors) search terms of every class, flat / parenthesised-source / "
              "unprintable shapes, slices with omitted bounds, `*`, `|..|`, `len(*..)`: printer, reader (also on mutated token "
              "strings), real find() of original vs re-read search on 7 trees.  (payloads) specs with computed repetition "
-             "bounds {e} {n,e} {e,n} {e,} {,e} {e,e} over 10 selector forms and generators with symbol arguments.  "
+             "bounds {e} {n,e} {e,n} {e,} {,e} {e,e} over 12 selector forms and generators with symbol arguments.  "
              "(specs) multi-rule specs with python code, parties, generators, computed repetitions via repr(grammar) and "
              "`fandango convert`.  (words) real parse() verdicts of both grammars.  (constraints) template constraints, "
              "verdicts of real check() on 14 inputs.  A node case is non-trivial when a postfix operator applies to a group, "
